@@ -7,6 +7,8 @@ Put(p, segs) == [op |-> "put", path |-> p, segs |-> segs]
 FileEq(p, segs) == [op |-> "file_eq", path |-> p, segs |-> segs]
 FileAbsent(p) == [op |-> "file_absent", path |-> p]
 VolCreate(out, inputs, expect) == [op |-> "vol_create", out |-> out, inputs |-> inputs, expect |-> expect]
+\* the same with the paths handed to the library exactly as spelled, relative to the sandbox as current directory (leading "./" matters)
+VolCreateRel(out, inputs, expect) == [op |-> "vol_create", out |-> out, inputs |-> inputs, expect |-> expect, rel |-> TRUE]
 VolOpen(p, listing) == [op |-> "vol_open", path |-> p, expect |-> "ok", listing |-> listing]
 NoIndex == 9999                                                            \* "not contained": lookup refuses
 VolIndex(n, i) == [op |-> "vol_index", name |-> n, expect |-> i]
